@@ -897,7 +897,7 @@ pub fn assumptions(prop: &str) -> Vec<String> {
     let extra: &[&str] = match prop {
         "C01" | "C02" | "C05" | "C06" | "C09" => &[
             "simk's completion shapes (single CQE, F_MORE streams, zero-copy result + notification incl. on failure/cancel, -ECANCELED/-EINTR, buffer-select flags) are the ones K-conf compares with the running kernel; completion shapes no Linux kernel produces are not explored",
-            "operations are those of the catalogue in harness/src/ops.rs (about 75 shapes); an a10 operation type not in it is not covered",
+            "operations are those of the catalogue in harness/src/ops.rs (88 shapes); an a10 operation type not in it is not covered",
         ],
         "C03" => &["an executor that re-polls only when woken; Ring::poll calls are made by the harness (sequential) or by one ring thread (schx)"],
         "C04" => &["the kernel consumes submission entries atomically at io_uring_enter (or, with a kernel thread, at any scheduling point as one actor step)"],
